@@ -159,8 +159,11 @@ func main() {
 		toks []string
 	}
 	var inputs []input
-	cfgs := []string{"Grammar_1.cfg", "Grammar_2.cfg"}
+	cfgs := []string{"Grammar_1.cfg", "Grammar_2.cfg", "Grammar_1r.cfg", "Grammar_2r.cfg"}
 	for ci, cfg := range cfgs {
+		if ci >= 2 {
+			ci -= 2 // the rich-operand configurations rotate slots like their plain counterparts
+		}
 		r := core.MustTLC(core.TLCOpts{Spec: "Grammar", Cfg: cfg, Timeout: 30 * time.Minute})
 		run.AddTLC(r.Stat(fmt.Sprintf("expression trees with %d operator node(s): RoundTrip, ParenOnlyAdds", ci+1)))
 		for li, line := range r.Cases {
